@@ -54,7 +54,8 @@ impl Filter for DateInTzFilter {
             .map_err(|_err| invalid_input("Timezone was too large"))?;
 
         let date_str = date
-            .with_offset(offset)
+            .checked_with_offset(offset)
+            .ok_or_else(|| invalid_input("Date is out of range in that timezone"))?
             .format(args.format.as_str())
             .map_err(|_err| invalid_input("Invalid format string"))?;
         Ok(Value::scalar(date_str))
